@@ -20,9 +20,13 @@ RULE = ("ordered lists of 0..12 well-formed capability records (id in every Capa
         "(1) raw_capabilities and every public property of CapabilitiesResponse(L) equal those of the in-order merge of the "
         "single-record responses; (2) through get_capabilities(): a client of a device serving L in one page and a client of a "
         "device serving L[:k] with the more-flag and L[k:] as additional page expose equal capability attributes, the second "
-        "client sent exactly one additional-page request and the first none. Non-trivial: the list contains an unknown / "
+        "client sent exactly one additional-page request and the first none; optionally both devices are V3, hang up after every answer (FIN / RST, seen by the client's loop after or with the answer), or lose the first transmission of a request while the host's wall clock jumps (-5 s .. +2 h). Non-trivial: the list contains an unknown / "
         "zero-size / odd-size-known / undersized-TEMPERATURES record followed by a known record, or 0 < k < n. Distinct by (L, k).")
 ASSUMPTIONS = ["trailer shapes limited to those seen in captured responses (none, [more, x], [x])"]
+
+import hashlib
+TOKEN = hashlib.sha512(b"c15 token").digest()
+KEY = hashlib.sha256(b"c15 key").digest()
 
 KNOWN_IDS = [0x0009, 0x000A, 0x0018, 0x0030, 0x0032, 0x0033, 0x0039, 0x0040, 0x0042, 0x0043, 0x0048, 0x004B, 0x0051, 0x0058, 0x0059, 0x0067,
              0x00E3, 0x0091, 0x0093, 0x0094, 0x0098, 0x0210, 0x0212, 0x0213, 0x0214, 0x0215, 0x0216, 0x0217, 0x0219, 0x021A, 0x0221, 0x021E,
@@ -82,9 +86,25 @@ def check_case(case: dict):
         async def main(loop, pages=pages):
             m = RK.model(0)
             m.cap_pages = [([M.cap_record(r[0], bytes.fromhex(r[1])) for r in recs], tr) for recs, tr in pages]
-            dev = SimDevice(loop, version=2, device_id=3, ac=m)
+            peer = case.get("peer") or {}
+            version = peer.get("version", 2)
+            dev = SimDevice(loop, version=version, device_id=3, ac=m, token=TOKEN, key=KEY)
+            dev.hangup = peer.get("hangup")          # the unit hangs up after every answer (FIN/RST)
+            seen = {"n": 0}
+
+            def on_data(dev_, conn, frame):
+                # the first transmission of the n-th request is lost; meanwhile the host's wall clock jumps (suspend/resume)
+                seen["n"] += 1
+                if peer.get("lose") and seen["n"] == peer["lose"]:
+                    if peer.get("jump"):
+                        loop.call_later(0.5, lambda: setattr(loop, "wall_skew", loop.wall_skew + peer["jump"]))
+                    return ("drop",)
+                return None
+            dev.on_data = on_data
             net.listen("10.0.0.9", 6444, dev)
             ac = AC(ip="10.0.0.9", port=6444, device_id=3)
+            if version == 3:
+                await ac.authenticate(TOKEN, KEY)
             await ac.get_capabilities()
             res["caps"] = {a: repr(getattr(ac, a)) for a in RK.CAP_ATTRS}
             res["requests"] = list(m.cap_requests)
@@ -174,6 +194,21 @@ def run(ctx) -> None:
                         ctx.check(case, lambda c: _run_one(ctx, c))
     ctx.sweep("same id twice with different values x split points", d, not ctx.quick)
 
+    # peers that behave like real units rather than ideal ones: hang up after every answer; lose a transmission while the host's clock jumps
+    e = 0
+    recs = [[0x0212, "01"], [0x0214, "01"], [0x0216, "01"], [0x021F, "01"], [0x0048, "01"], [0x0215, "01"], [0x0210, "01"]]
+    for version in (2, 3):
+        for hangup in (None, "fin", "rst", "fin_same", "rst_same"):
+            for lose, jump in ((0, 0), (1, 0), (2, 0), (1, 30.0), (2, 30.0), (2, 7200.0), (2, -5.0)):
+                for k in (0, 3, 7):
+                    e += 1
+                    if ctx.mine(e):
+                        peer = {"version": version, "lose": lose, "jump": jump}
+                        if hangup:
+                            peer["hangup"] = hangup
+                        ctx.check({"records": recs, "trailer": "", "trailer2": "", "k": k, "x": 0, "paging": True, "peer": peer}, lambda c: _run_one(ctx, c))
+    ctx.sweep("peer personality: hang-up after each answer x lost transmission x wall-clock jump x split point x {V2,V3}", e, True)
+
     hexb = lambda s_: s_.map(lambda b: b.hex())
     first = st.one_of(st.integers(0, 13), st.just(100), st.integers(0, 255))
     data = st.integers(0, 10).flatmap(lambda size: st.tuples(first, st.binary(min_size=max(0, size - 1), max_size=max(0, size - 1))).map(
@@ -184,7 +219,9 @@ def run(ctx) -> None:
         "records": st.lists(record, min_size=0, max_size=12),
         "trailer": st.sampled_from(["", "", "0000", "0001", "00", "01"]),
         "trailer2": st.sampled_from(["", "0000", "00"]),
-        "k": st.integers(0, 12), "x": st.integers(0, 255), "paging": st.booleans()})
+        "k": st.integers(0, 12), "x": st.integers(0, 255), "paging": st.booleans()},
+        optional={"peer": st.fixed_dictionaries({"version": st.sampled_from([2, 3]), "lose": st.sampled_from([0, 0, 1, 2]), "jump": st.sampled_from([0, 0, 30.0, 7200.0, -5.0])},
+                                                optional={"hangup": st.sampled_from(["fin", "rst", "fin_same", "rst_same"])})})
     ctx.hyp("lists", cases, lambda c: _run_one(ctx, c), ctx.n(3000, 480000))
     # the same capability id repeated with different values (a later record overrides an earlier one, also across the split)
     dup_ids = [0x0048, 0x0216, 0x0214, 0x0212, 0x0225, 0x0210, 0x0215, 0x021F, 0x0043, 0x0042, 0x0018, 0x0219, 0x00E3, 0x0009]
